@@ -15,7 +15,7 @@ import (
 )
 
 func runC13IR(c *Ctx) {
-	c.res.Rule = "ctirproto.run vs implementation: VerifyHashed on valid signatures, tampered r/s/e/public key, r or s in {0, n, n-1}, r+s=n, wrong lengths, public key off the curve (class = outcome); ZA on identifiers of length 0..8192"
+	c.res.Rule = "ctirproto.run vs implementation: VerifyHashed on valid signatures, tampered r/s/e/public key, r or s in {0, n, n-1}, r+s=n, wrong lengths, public key off the curve (class = outcome); ZA on identifiers of length 0..8192; Sign / SignZa / Verify / VerifyZa on (id, message) cases incl. a rejected nonce, a tampered message, an identifier that is too long; CheckOnCurve on/off curve, short, out of range"
 	check := func(fn, class string, args []string, impl string) {
 		req := "ctirproto.run " + fn + " " + strings.Join(args, " ")
 		c.Case("ctirproto.run", class, false, req)
@@ -85,6 +85,65 @@ func runC13IR(c *Ctx) {
 			verify("len", px, py, e, r, append([]byte{0}, s...))
 			verify("pub=0", make([]byte, 32), make([]byte, 32), e, r, s)
 		}
+	}
+	// Sign / SignZa / Verify / VerifyZa / CheckOnCurve (functions 108–112): the reader is the public handle 1; what it
+	// delivers is the driver's tape, 32 bytes per read (a rejected all-ones nonce first in the second case)
+	ff := make([]byte, 32)
+	for i := range ff {
+		ff[i] = 0xff
+	}
+	for i := 0; i < 2; i++ {
+		priv, gx, gy, err := sm2.GenerateKey(rand.Reader)
+		if err != nil {
+			continue
+		}
+		id := []byte("1234567812345678")[:16-5*i]
+		msg := c.rng.Bytes(10 + 60*i)
+		nonces := [][]byte{c.rng.Bytes(32)}
+		nonces[0][0] &= 0x7f
+		if i == 1 {
+			nonces = [][]byte{ff, nonces[0]}
+		}
+		r, s, err := sm2.Sign(id, gx, gy, &scriptReader{items: dataScript(nonces...)}, priv, msg)
+		check("sm2.Sign", "sign", []string{vTape(nonces...), vBytes(id), vBytes(gx), vBytes(gy), "1", vBytes(priv), vBytes(msg)}, "ok "+vInts(r)+" "+vInts(s)+" "+errFlag(err))
+		vimpl := func(ok bool, err error) string {
+			b := 0
+			if ok {
+				b = 1
+			}
+			if err != nil {
+				return fmt.Sprintf("ok %d 1", b)
+			}
+			return fmt.Sprintf("ok %d 0", b)
+		}
+		ok, verr := sm2.Verify(id, gx, gy, msg, r, s)
+		check("sm2.Verify", "verify/valid", []string{vBytes(id), vBytes(gx), vBytes(gy), vBytes(msg), vBytes(r), vBytes(s)}, vimpl(ok, verr))
+		if i == 0 {
+			bad := append([]byte{}, msg...)
+			bad[0] ^= 1
+			ok, verr = sm2.Verify(id, gx, gy, bad, r, s)
+			check("sm2.Verify", "verify/tamper-msg", []string{vBytes(id), vBytes(gx), vBytes(gy), vBytes(bad), vBytes(r), vBytes(s)}, vimpl(ok, verr))
+			zaB, _ := sm2.ZA(id, gx, gy)
+			r2, s2, err := sm2.SignZa(&scriptReader{items: dataScript(nonces...)}, priv, zaB, msg)
+			check("sm2.SignZa", "signza", []string{vTape(nonces...), "1", vBytes(priv), vBytes(zaB), vBytes(msg)}, "ok "+vInts(r2)+" "+vInts(s2)+" "+errFlag(err))
+			ok, verr = sm2.VerifyZa(gx, gy, zaB, msg, r2, s2)
+			check("sm2.VerifyZa", "verifyza", []string{vBytes(gx), vBytes(gy), vBytes(zaB), vBytes(msg), vBytes(r2), vBytes(s2)}, vimpl(ok, verr))
+			long := make([]byte, 8192)
+			r3, s3, err := sm2.Sign(long, gx, gy, &scriptReader{items: dataScript(nonces...)}, priv, msg)
+			check("sm2.Sign", "sign/id-too-long", []string{vTape(nonces...), vBytes(long), vBytes(gx), vBytes(gy), "1", vBytes(priv), vBytes(msg)}, "ok "+vInts(r3)+" "+vInts(s3)+" "+errFlag(err))
+		}
+		b2i := func(b bool) string {
+			if b {
+				return "ok 1"
+			}
+			return "ok 0"
+		}
+		check("sm2.CheckOnCurve", "oncurve", []string{vBytes(gx), vBytes(gy)}, b2i(sm2.CheckOnCurve(gx, gy)))
+		off := append([]byte{}, gy...)
+		off[31] ^= 1
+		check("sm2.CheckOnCurve", "offcurve", []string{vBytes(gx), vBytes(off)}, b2i(sm2.CheckOnCurve(gx, off)))
+		check("sm2.CheckOnCurve", "short", []string{vBytes(gx[:31]), vBytes(gy)}, b2i(sm2.CheckOnCurve(gx[:31], gy)))
+		check("sm2.CheckOnCurve", "range", []string{vBytes(ff), vBytes(gy)}, b2i(sm2.CheckOnCurve(ff, gy)))
 	}
 	px, py := c.rng.Bytes(32), c.rng.Bytes(32)
 	for _, n := range []int{0, 1, 16, 55, 56, 64, 200, 8191, 8192} {
